@@ -139,6 +139,13 @@ func consumerFields(c *core.Ctx) map[string]bool {
 
 func C09(c *core.Ctx) {
 	c.Explanation("C09: for every sequence of a bounded family (all length-4 sequences over {A,C,G,T,N} against the reference TGCA, in batches of several records) the interpreted pipeline getLines -> updown.writeOutput (the CSV text it writes, split on commas) -> readCSVToUDLList / readCSVToUDLChan must reproduce the record getLines produced, on every field that the ranking code reads (the set of fields read is computed from the SSA of pkg/updown's consumers), including the query's input index; this decides the writer/reader schema agreement (header, column positions, '|' and '-' separators, a / a-b ranges, SNP position parsing) and the producer/consumer field agreement. The CSV header check and the empty-file check of both readers; FASTA paths: target conversion re-ordered by input index, query conversion not a pool, results stored by query index.")
+	checkArrivalOrderIndependence(c, "R5/reorder", "updown.reorderRecords")
+	c09Inputs(c)
+	c09Order(c)
+}
+
+// c09Inputs: the FASTA and CSV input paths produce the same records (also part of C08: what the binning sees).
+func c09Inputs(c *core.Ctx) {
 	ev0 := newEval(c)
 	tabs := extractTables(c, ev0, "R0")
 	if !tabs.OK {
@@ -261,6 +268,9 @@ func C09(c *core.Ctx) {
 	c.Ob("R1/field-agreement/readCSVToUDLList", len(badList) == 0, funcPos(c, "pkg/updown", "readCSVToUDLList"), "%s", first(badList, 4))
 	c.Ob("R1/field-agreement/readCSVToUDLChan", len(badChan) == 0, funcPos(c, "pkg/updown", "readCSVToUDLChan"), "%s", first(badChan, 4))
 	c.Sample(map[string]string{"rule": "R1/R2", "sequence": "CANN vs TGCA", "csv_row": "id,T1C|G2A,3-4,2,2", "compared_fields": strings.Join(readList, ",")})
+}
+
+func c09Order(c *core.Ctx) {
 	// R4 ordering of the FASTA paths
 	p := facts(c)
 	for _, name := range []string{"fastaToUDLList", "readFastaToUDLChan"} {
